@@ -27,7 +27,7 @@ def run(prop, tier):
     cfg = KANI[prop]
     out = {"unit": "kani:" + cfg["mod"], "status": "ok", "reasons": [], "obligations": [], "findings": [], "canaries": {}, "functions": [],
            "assumed_functions": [], "scan": {}, "smt_ms": 0, "cmds": [], "files": [], "bounded": [], "not_covered": []}
-    # The Kani runs are slow (15 harnesses, 3 to 30 CPU-minutes each).  A committed record (kani/discharged.json) names the exact source text
+    # The Kani runs are slow (16 harnesses, up to 30 CPU-minutes each).  A committed record (kani/discharged.json) names the exact source text
     # (sha256 of the function-bearing files + harness file) for which every harness was discharged by a thorough run.  The quick tier re-runs the
     # harnesses only when that text differs (i.e. when somebody touched the encoder/decoder); for identical text it reports them as discharged
     # from the record -- the same CBMC problem has the same answer.
@@ -80,7 +80,7 @@ def run(prop, tier):
         skipped = []
         if tier != "thorough":
             # quick tier after an edit of the encoder/decoder: the three harnesses over symbolic 256-bit / 33-byte literals take 15-35 minutes each;
-            # they are left to the thorough tier (reported undecided here), the other twelve (~3 min each) run now
+            # they are left to the thorough tier (reported undecided here), the other thirteen (~3 min each) run now
             skipped = [h for h in todo if h in cfg.get("slow", [])]
             todo = [h for h in todo if h not in skipped]
         first = one(todo[0])
